@@ -1019,6 +1019,44 @@ def check_shared_literals(ctx, res: Result, dotted: str, rule="E-SHARED"):
         if isinstance(n, ast.BinOp) and isinstance(n.op, ast.Mult) and isinstance(n.left, ast.List) and any(_is_mutable_literal(x) for x in n.left.elts):
             hits += 1
             res.violation(rule, fi.short, norm(n), "list-mult", "[<mutable>] * n repeats ONE object n times", loc(fi, n))
+    # one mutable local, created OUTSIDE a loop, becomes the entry of every key the loop visits (`d.setdefault(k, shared)` /
+    # `d[k] = shared`), and entries of `d` are updated in place somewhere in the function
+    def mutable_ctor(e):
+        return isinstance(e, (ast.Dict, ast.List, ast.Set, ast.ListComp, ast.SetComp, ast.DictComp)) or (isinstance(e, ast.Call) and isinstance(e.func, ast.Name) and e.func.id in ("dict", "list", "set", "defaultdict", "Counter"))
+
+    inplace = ("add", "update", "append", "extend", "discard", "remove", "insert", "pop", "clear", "difference_update", "intersection_update", "setdefault")
+    for lp in [x for x in walk_no_nested(fi.node) if isinstance(x, ast.For)]:
+        tnames = {x.id for x in ast.walk(lp.target) if isinstance(x, ast.Name)}
+        body = [y for st in lp.body for y in ast.walk(st)]
+        body_ids = {id(y) for y in body}
+        for n in body:
+            tab = key = val = None
+            if isinstance(n, ast.Call) and isinstance(n.func, ast.Attribute) and n.func.attr == "setdefault" and len(n.args) == 2:
+                tab, key, val = n.func.value, n.args[0], n.args[1]
+            elif isinstance(n, ast.Assign) and len(n.targets) == 1 and isinstance(n.targets[0], ast.Subscript):
+                tab, key, val = n.targets[0].value, n.targets[0].slice, n.value
+            if tab is None or not isinstance(val, ast.Name) or not ({x.id for x in ast.walk(key) if isinstance(x, ast.Name)} & tnames):
+                continue
+            stores = [x for x in ast.walk(fi.node) if isinstance(x, ast.Name) and isinstance(x.ctx, ast.Store) and x.id == val.id]
+            defs = [a for a in walk_no_nested(fi.node) if isinstance(a, ast.Assign) and len(a.targets) == 1 and isinstance(a.targets[0], ast.Name) and a.targets[0].id == val.id]
+            if not defs or len(defs) != len(stores) or any(id(a) in body_ids for a in defs) or not all(mutable_ctor(a.value) for a in defs):
+                continue
+            # the loop must be able to visit two keys: the object is created outside THIS loop (an enclosing loop re-creates it per
+            # outer item, which is fine - it is still one object for all keys of the inner loop)
+            tname = norm(tab)
+            muts = []
+            for m in walk_no_nested(fi.node):
+                if isinstance(m, ast.Call) and isinstance(m.func, ast.Attribute) and m.func.attr in inplace:
+                    r = m.func.value
+                    if isinstance(r, ast.Subscript) and norm(r.value) == tname:
+                        muts.append(m)
+                    elif isinstance(r, ast.Call) and isinstance(r.func, ast.Attribute) and r.func.attr in ("setdefault", "get") and norm(r.func.value) == tname and m.func.attr != "setdefault":
+                        muts.append(m)
+                if isinstance(m, ast.AugAssign) and isinstance(m.target, ast.Subscript) and norm(m.target.value) == tname and isinstance(m.op, (ast.BitOr, ast.BitAnd, ast.Sub, ast.Add)):
+                    muts.append(m)
+            if muts:
+                hits += 1
+                res.violation(rule, fi.short, norm(n)[:100], "loop-shared", f"`{val.id}` (one object, created outside the loop at line {defs[0].lineno}) becomes the entry of every key this loop visits, and entries of `{tname}` are updated in place (`{norm(muts[0])[:50]}`): an update meant for one key shows up under all keys that share the object", loc(fi, n))
     if hits == 0:
         res.ok(rule, fi.short, "no shared mutable literal", "scan", loc(fi, fi.node))
 
